@@ -47,10 +47,10 @@ theorem capOK_of_read {c : Cfg} {o : Orders} {s s' : State} {m : Mem Loc} {t i t
 theorem Inv.step_ensure_retry {c : Cfg} {o : Orders} {s : State} {m : Mem Loc} {t i nb : Nat} {k : K}
     (inv : Inv c o s) (hp : (∃ seen, s.pc t = .en1 i seen k) ∨ s.pc t = .en0 i k) (q : QuietMem s.mem m t)
     (hnb : nb < c.need i) : Inv c o { s with mem := m, pc := upd s.pc t (.en1 i nb k) } := by
-  have hown : s.own i = .held t := by
+  have hown : s.own i = .held t ∧ (k = .kCreate → c.tls = false) := by
     have := inv.pcs t; unfold PcOK at this
     rcases hp with ⟨seen, hp⟩ | hp <;> rw [hp] at this
-    · exact this.1
+    · exact ⟨this.1, this.2.2⟩
     · exact this
   apply inv.quiet_pc (s' := { s with mem := m, pc := upd s.pc t (.en1 i nb k) }) (t := t) q <;> try rfl
   · intro t' e; rfl
@@ -58,7 +58,7 @@ theorem Inv.step_ensure_retry {c : Cfg} {o : Orders} {s : State} {m : Mem Loc} {
   · intro j; rcases hp with ⟨seen, hp⟩ | hp <;> simp [hp] <;> cases k <;> simp [Pc.crAt]
   · intro j; rcases hp with ⟨seen, hp⟩ | hp <;> simp [hp, Pc.lkAt]
   · intro j; rcases hp with ⟨seen, hp⟩ | hp <;> simp [hp, Pc.lk3At]
-  · simp [PcOK]; exact ⟨hown, hnb⟩
+  · simp [PcOK]; exact ⟨hown.1, hnb, hown.2⟩
 
 /-- `ensure` inside thread-local `lock()` is done: go on with `lock(index)` -/
 theorem Inv.step_ensure_lock {c : Cfg} {o : Orders} {s : State} {m : Mem Loc} {t i : Nat}
@@ -68,7 +68,7 @@ theorem Inv.step_ensure_lock {c : Cfg} {o : Orders} {s : State} {m : Mem Loc} {t
     have := inv.pcs t; unfold PcOK at this
     rcases hp with ⟨seen, hp⟩ | hp <;> rw [hp] at this
     · exact this.1
-    · exact this
+    · exact this.1
   apply inv.quiet_pc (s' := { s with mem := m, pc := upd s.pc t (.lk0 i) }) (t := t) q <;> try rfl
   · intro t' e; rfl
   · intro t' e; simp [e]
